@@ -3,6 +3,12 @@
 import json, subprocess
 
 CHECKS = {
+ "C03": dict(level="model_checking", design="§3 C03", technique="explicit-state search over sequences of update requests executed on the real database (prefix replay on a fresh database), whole-dataset comparison with a SPARQL Update reference after every step",
+   text="BFS over sequences (depth 4 quick, 5 thorough) of a 34-request alphabet (the six update forms over default and named graphs, swapping / self-referential / graph-variable / blank-node templates, WHERE with FILTER/UNION/VALUES, unbound and literal-subject template variables, 11 malformed or rejected requests) from 3 initial datasets through SparqlDatabase::execute_update; after every step all quads of all graphs (up to blank-node renaming), the catalog bounds, the UpdateSummary counts and acceptance vs rejection are compared with R-update, and a rejected request must leave quads and catalog untouched.",
+   note="De-duplication on the abstract dataset (sound because the full physical content is compared through all_quads each step; index divergence is C04's subject); term universe U; reference R-update trusted (self-tested)."),
+ "C16": dict(level="exploration", design="§3 C16", technique="bounded-exhaustive enumeration of token strings and of single/double mutations of a seed corpus through the real parsers under catch_unwind (crash-isolated workers) + print/parse round trip of every generated AST in 6 layouts",
+   text="Totality: every string of <=3 (thorough <=4) tokens over a 30-token alphabet, spaced and glued, every single mutation of ~130 seed requests and every double mutation of the shortest seeds go through parse_combined_query, parse_combined_query_with_options(_, true), parse_sparql_query and parse_group_graph_pattern: never a panic, acceptance implies the whole input was consumed. Faithfulness: every query of the C01 generator list and every update form, printed in 6 layouts (whitespace, comments, keyword case, ;/, abbreviations, optional dots), must parse to a tree equal to the generated AST.",
+   note="Nesting deeper than the generator produces (stack exhaustion) is outside the explored space; tree comparison modulo merging of adjacent triples blocks and single-element braces."),
  "C01": dict(level="exploration", design="§3 C01", technique="bounded-exhaustive enumeration of (dataset, query) pairs executed on the real engine, SPARQL-algebra reference evaluator as oracle",
    text="Every query of a generator grammar (all sequences of <=2, thorough <=3, pattern elements from ~90 shapes: triple templates, GRAPH, UNION, nested groups, sub-SELECTs, FILTER at every position, BIND, VALUES/UNDEF, every solution modifier) is executed on every subset of a 10-quad universe (quick: the sparse and the near-full subsets; thorough: all 2048 incl. an empty named graph) through execute_sparql_query and the legacy entry point, and compared with an independent implementation of the SPARQL 1.1 algebra (multiset equality, sortedness, legal LIMIT cut). Exhaustive inside the stated grammar and universe; the oracle is independent of the code under test.",
    note="Bounded grammar and 10-quad universe; value model as Kolibrie documents it (bare lexical forms, numeric comparison only between numerics); reference evaluator trusted (self-tested)."),
